@@ -98,6 +98,13 @@ def build_alphabet(darsia):
     def tvd(weight, method):
         return darsia.tvd(IMG_A.copy(), method=method, weight=weight, max_num_iter=5, eps=1e-12, **({"omega": 1.0, "dim": 2} if method == "heterogeneous bregman" else {}))
 
+    def tvd_object(which):
+        # one TVD object (as used for the restoration stage of an analysis) with non-default forwarded options, applied
+        # to successive images
+        T = shared("TVDOBJ", lambda: darsia.TVD(method="heterogeneous bregman", weight=0.3, omega=1.0, max_num_iter=4, eps=1e-12, dim=2, isotropic=True,
+                                                solver=darsia.Jacobi(maxiter=3)))
+        return T((IMG_A if which == "A" else IMG_A[::-1]).copy())
+
     def anderson(seed, n):
         A = shared("AA", lambda: darsia.AndersonAcceleration(dimension=None, depth=2, restart=3))
         r = np.random.default_rng(seed)
@@ -193,6 +200,8 @@ def build_alphabet(darsia):
         "sb_explicit": lambda: sb(IMG_A, 0.7, explicit=True),
         "tvd_chambolle": lambda: tvd(0.2, "chambolle"),
         "tvd_het": lambda: tvd(0.3, "heterogeneous bregman"),
+        "tvd_obj_A": lambda: tvd_object("A"),
+        "tvd_obj_B": lambda: tvd_object("B"),
         "aa_seq1": lambda: anderson(1, 8),
         "aa_d2r3_head": lambda: anderson_window(2, 3, 0, 3, 11),
         "aa_d2r3_tail": lambda: anderson_window(2, 3, 3, 6, 12),
@@ -244,6 +253,7 @@ LETTERS = [
     "aa_d2r3_head", "aa_d2r3_tail", "aa_d3r2_head", "aa_d3r2_tail", "w_adaptive_homog_A", "w_adaptive_homog_B", "w_newton_aa_restart_A", "w_newton_aa_restart_B",
     "mg2_small", "mg2_regular", "w_bregman_L2_A", "w_bregman_L2_B", "w_bregman_L2fr_A", "w_bregman_L2fr_B", "w_bregman_amg_custom",
     "w_bregman_big_A", "w_bregman_big_B", "w_bregman_big_aa_A", "w_bregman_big_aa_B", "w_newton_big_A", "w_newton_big_B",
+    "tvd_obj_A", "tvd_obj_B",
 ]
 # letters that can share state with each other (same object or same module-level default)
 GROUPS = {
@@ -254,6 +264,7 @@ GROUPS = {
     "h1_explicit": ["h1_explicit_mu10", "h1_explicit_mu1", "h1_3d_explicit_mu1"],
     "h1_mg": ["h1_mg_mu1", "h1_mg_mu5"],
     "sb_explicit": ["sb_explicit"],
+    "tvd_object": ["tvd_obj_A", "tvd_obj_B"],
     "tvd": ["tvd_chambolle"],
     "anderson": ["aa_seq1", "aa_seq2"],
     "w_newton": ["w_newton_A", "w_newton_B"],
